@@ -56,6 +56,8 @@ pub struct Rec {
 pub struct RActor {
     pub uid: u64,
     pub log: Arc<Mutex<Vec<Rec>>>,
+    /// virtual milliseconds spent in pre_start (an actor may still be starting when a session authenticates)
+    pub start_ms: u64,
 }
 pub struct RState {
     held_u: Vec<RpcReplyPort<u64>>,
@@ -88,6 +90,9 @@ impl Actor for RActor {
     type State = RState;
     type Arguments = ();
     async fn pre_start(&self, _: ActorRef<RMsg>, _: ()) -> Result<RState, ActorProcessingErr> {
+        if self.start_ms > 0 {
+            tokio::time::sleep(Duration::from_millis(self.start_ms)).await;
+        }
         Ok(RState { held_u: vec![], held_v: vec![] })
     }
     async fn handle(&self, _: ActorRef<RMsg>, m: RMsg, st: &mut RState) -> Result<(), ActorProcessingErr> {
@@ -363,19 +368,32 @@ async fn body(seed: u64) -> Out {
     let mut next_uid = 1u64;
     let mut desc = vec![format!("chaos(max_chunk,delay%,max_delay_ms)={chaos:?} faulty={faulty} cut={with_cut} cut_after={:?} reconnect={reconnect}", if cut_by_bytes { Some(cut_after) } else { None })];
 
-    let spawn_target = |uid: u64, named: bool| {
+    // start_ms > 0: the reference exists at once (spawn_instant) while pre_start takes that long
+    let spawn_target = |uid: u64, named: bool, start_ms: u64| {
         let tag = tag.clone();
         async move {
             let log = Arc::new(Mutex::new(vec![]));
             let name = if named { Some(format!("c20-{tag}-{uid}")) } else { None };
-            let (actor, handle) = Actor::spawn(name, RActor { uid, log: log.clone() }, ()).await.expect("target");
+            if start_ms > 0 {
+                let (actor, outer) = ractor::ActorRuntime::<RActor>::spawn_instant(name, RActor { uid, log: log.clone(), start_ms }, ()).expect("target");
+                let handle = tokio::spawn(async move {
+                    if let Ok(Ok(inner)) = outer.await {
+                        let _ = inner.await;
+                    }
+                });
+                let pid = actor.get_id().pid();
+                return Target { uid, actor, handle: Some(handle), log, pid, stopped: false };
+            }
+            let (actor, handle) = Actor::spawn(name, RActor { uid, log: log.clone(), start_ms: 0 }, ()).await.expect("target");
             let pid = actor.get_id().pid();
             Target { uid, actor, handle: Some(handle), log, pid, stopped: false }
         }
     };
     // some targets exist (and are grouped) before the link comes up, some only after
-    for _ in 0..n_initial {
-        let t = spawn_target(next_uid, p.chance(1, 2)).await;
+    for i in 0..n_initial {
+        // now and then the first target is still in pre_start while the link authenticates and synchronises
+        let start_ms = if i == 0 && p.chance(1, 3) { p.range(50, 2500) } else { 0 };
+        let t = spawn_target(next_uid, p.chance(1, 2), start_ms).await;
         next_uid += 1;
         for (gi, (s, g)) in groups.iter().enumerate() {
             if p.chance(1, 2) || gi == 0 {
@@ -629,7 +647,7 @@ async fn body(seed: u64) -> Out {
         }
         match e {
             Event::SpawnTarget { groups: gs } => {
-                let t = spawn_target(next_uid, p.chance(1, 2)).await;
+                let t = spawn_target(next_uid, p.chance(1, 2), 0).await;
                 next_uid += 1;
                 for gi in gs {
                     ractor::pg::join_scoped(groups[gi].0.clone(), groups[gi].1.clone(), vec![t.actor.get_cell()]);
